@@ -173,4 +173,4 @@ def body(case):
 
 
 def tests(tier):
-    return [TestSpec("schema-perms", gen_case, body, {"quick": 1500, "thorough": 120000}, tape=2048, fuzz={"thorough": 40000})]
+    return [TestSpec("schema-perms", gen_case, body, {"quick": 1500, "thorough": 120000}, tape=2048, fuzz={"thorough": 15000})]
